@@ -67,7 +67,7 @@ def run(case):
 
 @st.composite
 def cases(draw, tier):
-    return {"nfa": draw(G.nfa_specs(max_states=5 if tier == "quick" else 6))}
+    return {"nfa": draw(G.mixed_nfa_specs(max_states=5 if tier == "quick" else 6))}
 
 
 def ex(tier):
